@@ -25,9 +25,20 @@ CURRENT = {"ctl": None}
 class _LoopErrorHandler(logging.Handler):
     def emit(self, record):  # noqa: D401
         ctl = CURRENT["ctl"]
-        if ctl is not None and isinstance(record.msg, str) and "Error processing event" in record.msg:
+        if ctl is None or not isinstance(record.msg, str):
+            return
+        msg = record.msg
+        if "Error processing event" in msg:
             exc = record.exc_info[0].__name__ if record.exc_info and record.exc_info[0] else "?"
             ctl.emit("loop_error", exc)
+        elif "queued events in a single macrostep" in msg:
+            ctl.emit("cut_drain")
+        elif "chained self-raised events" in msg:
+            ctl.emit("cut_raise")
+        elif "microsteps while settling" in msg:
+            ctl.emit("cut_always")
+        elif "Nested action expansion exceeded" in msg:
+            ctl.emit("cut_actions")
 
 
 _lg = logging.getLogger("xstate_statemachine")
@@ -44,6 +55,11 @@ from xstate_statemachine.sync_interpreter import SyncInterpreter  # noqa: E402
 INIT_EVENT = "___xstate_statemachine_init___"
 
 
+class Diverged(BaseException):
+    """Raised from the recorder hook when one public step dequeues more than `fuel` events.
+    BaseException: the one thing the plugin error containment (except Exception) lets through."""
+
+
 class Ctl:
     """Per-machine control block shared by all logic closures."""
 
@@ -53,6 +69,8 @@ class Ctl:
         self.tnames: Dict[int, str] = {}
         self.fault = None  # optional fault plan (set by C07)
         self.calls = 0
+        self.fuel = 10 ** 9
+        self.events = 0
 
     def reset(self) -> None:
         self.gv = {}
@@ -136,6 +154,9 @@ class Recorder:
         self.ctl.emit("interp_stop")
 
     def on_event_received(self, interp, event):
+        self.ctl.events += 1
+        if self.ctl.events > self.ctl.fuel:
+            raise Diverged()
         self.ctl.emit("event", event.type)
 
     def on_transition(self, interp, frm, to, transition):
